@@ -52,4 +52,9 @@ impl VConsensus {
     pub async fn dial(&self, ctx: &ctx::Ctx, peer: &validator::PublicKey, addr: std::net::SocketAddr) -> Result<(), String> {
         self.0.run_outbound_stream(ctx, peer, addr).await.map_err(|e| format!("{e:#}"))
     }
+    /// `maintain_connection`: keeps dialling validator `peer` at the address found in the address book
+    /// (runs until `ctx` is cancelled).
+    pub async fn maintain_connection(&self, ctx: &ctx::Ctx, peer: &validator::PublicKey) {
+        self.0.maintain_connection(ctx, peer).await
+    }
 }
